@@ -23,6 +23,12 @@ purpose and does not compare such cases. Functions live in a table, have no capt
 body is a straight-line list of `yield e` / `e` statements, resumed statement by statement, so the
 interleaving of generator and consumer effects is exact.
 
+Targets come in every form the language has: a named id `x`, the wildcard `_` and a named wildcard
+`_x` (both `none` here: they bind nothing, but a hinted wildcard is still asserted/checked and — in a
+multi-assignment from an iterable or in a `for` — still *consumes* its value). Multi-assignment has
+both right-hand-side forms (`a, b = e1, e2` and `a, b = iterable`); function arguments and `match`
+patterns can be nested tuples; `match` arms have `or` alternatives, several subjects and `if` guards.
+
 `St.fails` is a ghost counter of failed assertions (nothing reads it): "the program's checks pass"
 is `fails` unchanged.
 -/
@@ -38,11 +44,11 @@ structure Hint where
 
 abbrev Var := Nat
 
-/-- `match` arm patterns -/
-inductive Pat where
-  | wild (h : Option Hint)            -- `_`, `_: T`, `else`
-  | bind (x : Var) (h : Option Hint)  -- `x`, `x: T`
-  | lit (n : Int)                     -- integer literal
+/-- patterns of function arguments and `match` arms -/
+inductive P where
+  | b (x : Option Var) (h : Option Hint)   -- `x`, `x: T`, `_`, `_: T`, `_x: T`
+  | lit (n : Int)                          -- integer literal (match only)
+  | tup (ps : List P)                      -- nested `(p, q, …)`
   deriving Repr, Inhabited
 
 abbrev Binder := Option Var × Option Hint   -- `x`, `x: T`, `_`, `_: T`
@@ -55,6 +61,8 @@ inductive Expr where
   | lt (a b : Expr)
   | typeOf (e : Expr)                                  -- `koto.type e`
   | letH (x : Option Var) (h : Option Hint) (e : Expr) -- `let x: T = e`, `x = e`, `let _: T = e`
+  | letTemps (bs : List Binder) (es : List Expr)       -- `let a: T, _: U, c = e1, e2, e3`
+  | letUnpack (bs : List Binder) (e : Expr)            -- `let a: T, _: U, c = iterable`
   | seq (a b : Expr)
   | emit (e : Expr)                                    -- `print (repr e)`
   | ite (c t e : Expr)
@@ -63,9 +71,10 @@ inductive Expr where
   | ret (e : Expr)
   | throw (e : Expr)
   | tryC (body : Expr) (typed : List CatchArm) (x : Option Var) (final : Expr)
-  | matchE (scrut : Expr) (arms : List Arm)
+  | matchE (scruts : List Expr) (arms : List Arm)      -- `match a, b`
 inductive Arm where
-  | mk (pat : Pat) (body : Expr)
+  /-- alternatives (`or`), each a list of patterns (one per subject); no alternative = `else` -/
+  | mk (alts : List (List P)) (guard : Option Expr) (body : Expr)
 inductive CatchArm where
   | mk (x : Option Var) (h : Hint) (body : Expr)       -- `catch x: T`
 end
@@ -82,7 +91,7 @@ inductive Body where
   | gen (ss : List GStmt)
 
 structure FunDef where
-  params : List (Var × Option Hint)
+  params : List P
   out : Option Hint                 -- `-> T`
   body : Body
 
@@ -191,24 +200,88 @@ def bindLoop (checks : Bool) (bs : List Binder) (item : V) (s : St) : Res × St 
     | some vs => bindMany checks bs vs s
     | none => (.stuck 7, s)
 
-def paramBinders (ps : List (Var × Option Hint)) : List Binder := ps.map fun p => (some p.1, p.2)
+/-- elements seen by a nested pattern / nested argument: lists and tuples -/
+def elems : V → Option (List V)
+  | .list xs => some xs
+  | .tuple xs => some xs
+  | _ => none
 
-/-- `CheckType` in a `match` arm: `x: T` copies first, then checks; no `checks` parameter -/
-def patMatch (p : Pat) (v : V) (s : St) : Bool × St :=
-  match p with
-  | .wild none => (true, s)
-  | .wild (some h) => (check h.name h.opt v, s)
-  | .bind x none => (true, s.set x v)
-  | .bind x (some h) => (check h.name h.opt v, s.set x v)
-  | .lit n => ((match v with | .int m => m == n | _ => false), s)
+/- function arguments (assert mode), `k` bounds the nesting depth: an id or wildcard is bound and
+then asserted (`compile_arg`), a nested `(p, q)` first needs a list/tuple of exactly that size
+(`CheckSizeEqual`; anything else is a runtime error the model does not describe) -/
+mutual
+def bindArg (checks : Bool) : Nat → P → V → St → Res × St
+  | 0, _, _, s => (.stuck 0, s)
+  | _ + 1, .b x h, v, s => bindOne checks (x, h) v s
+  | _ + 1, .lit _, _, s => (.stuck 11, s)
+  | k + 1, .tup ps, v, s =>
+    match elems v with
+    | some xs => if xs.length = ps.length then bindArgs checks k ps xs s else (.stuck 12, s)
+    | none => (.stuck 12, s)
+def bindArgs (checks : Bool) : Nat → List P → List V → St → Res × St
+  | 0, _, _, s => (.stuck 0, s)
+  | _ + 1, [], _, s => (.ok .null, s)
+  | k + 1, p :: ps, vs, s =>
+    andThen (bindArg checks k p (vs.headD .null) s) fun _ s1 => bindArgs checks k ps vs.tail s1
+end
 
-/-- first arm whose pattern accepts `v` (with the bindings made on the way) -/
-def selectArm (v : V) : List Arm → St → Option Expr × St
-  | [], s => (none, s)
-  | .mk p body :: rest, s =>
-    match patMatch p v s with
-    | (true, s1) => (some body, s1)
-    | (false, s1) => selectArm v rest s1
+/-- outcome of matching a pattern (check mode: never an error) -/
+inductive PM where
+  | yes | no | stuck
+  deriving DecidableEq, Repr, Inhabited
+
+/-- has the value a size (`Size` op)? lists and tuples: their elements; values without a size never
+match a nested pattern; other sized values (strings, maps, ranges, objects) are not modelled -/
+inductive Sized where
+  | elems (xs : List V) | nosize | other
+
+def sized : V → Sized
+  | .list xs => .elems xs
+  | .tuple xs => .elems xs
+  | .str _ => .other
+  | .map _ => .other
+  | .obj _ _ _ _ => .other
+  | .range _ _ => .other
+  | .host _ _ _ _ => .other
+  | _ => .nosize
+
+/- `match` patterns (check mode, no `checks` parameter): `x: T` copies the value into `x` first and
+then checks (`CheckType` jumps on mismatch), a hinted wildcard checks a temporary, a nested pattern
+needs a list/tuple of exactly that size and then matches element by element (bindings made before a
+later mismatch stay, as in the register machine) -/
+mutual
+def patM : Nat → P → V → St → PM × St
+  | 0, _, _, s => (.stuck, s)
+  | _ + 1, .b x h, v, s =>
+    ((match h with
+      | none => PM.yes
+      | some h => if check h.name h.opt v then PM.yes else PM.no), s.setOpt x v)
+  | _ + 1, .lit n, v, s => ((match v with | .int m => if m = n then PM.yes else PM.no | _ => PM.no), s)
+  | k + 1, .tup ps, v, s =>
+    match sized v with
+    | .elems xs => if xs.length = ps.length then patsM k ps xs s else (.no, s)
+    | .nosize => (.no, s)
+    | .other => (.stuck, s)
+def patsM : Nat → List P → List V → St → PM × St
+  | 0, _, _, s => (.stuck, s)
+  | _ + 1, [], _, s => (.yes, s)
+  | k + 1, p :: ps, vs, s =>
+    match patM k p (vs.headD .null) s with
+    | (.yes, s1) => patsM k ps vs.tail s1
+    | r => r
+end
+
+/-- the `or` alternatives of one arm, in order: a failed alternative passes on to the next one -/
+def altsM (k : Nat) : List (List P) → List V → St → PM × St
+  | [], _, s => (.no, s)
+  | alt :: alts, vs, s =>
+    match patsM k alt vs s with
+    | (.no, s1) => altsM k alts vs s1
+    | r => r
+
+/-- patterns of an arm; an arm without alternatives is `else` -/
+def armM (k : Nat) (alts : List (List P)) (vs : List V) (s : St) : PM × St :=
+  if alts.isEmpty then (.yes, s) else altsM k alts vs s
 
 /-- first typed `catch` whose hint accepts the caught value, else the final untyped one -/
 def selectCatch (cv : V) : List CatchArm → Option Var → Expr → St → Expr × St
@@ -242,6 +315,22 @@ def eval (checks : Bool) (F : Funs) : Nat → Expr → St → Res × St
   | n + 1, .letH x h e, s =>
     andThen (eval checks F n e s) fun v s1 =>
     andThen (assertHint checks h v (s1.setOpt x v)) fun _ s2 => (.ok v, s2)
+  | n + 1, .letTemps bs es, s =>
+    andThen (evalArgs checks F n es s) fun r s1 =>
+      match r with
+      | .tuple vs =>
+        if vs.length ≠ bs.length then (.stuck 13, s1)
+        else andThen (bindMany checks bs vs s1) fun _ s2 => (.ok (.tuple vs), s2)
+      | _ => (.stuck 5, s1)
+  | n + 1, .letUnpack bs e, s =>
+    andThen (eval checks F n e s) fun v s1 =>
+      match v with
+      | .gen i genv started pc =>
+        andThen (unpackGen checks F n bs i genv started pc s1) fun _ s2 => (.ok v, s2)
+      | _ =>
+        match items v with
+        | some xs => andThen (bindMany checks bs xs s1) fun _ s2 => (.ok v, s2)
+        | none => (.stuck 4, s1)
   | n + 1, .seq a b, s =>
     andThen (eval checks F n a s) fun _ s1 => eval checks F n b s1
   | n + 1, .emit e, s =>
@@ -267,14 +356,14 @@ def eval (checks : Bool) (F : Funs) : Nat → Expr → St → Res × St
           if params.length ≠ vs.length then (.stuck 3, s2)
           else
             restore s2 <|
-              andThen (bindMany checks (paramBinders params) vs { s2 with env := [], out := out }) fun _ s3 =>
+              andThen (bindArgs checks (n + 2) params vs { s2 with env := [], out := out }) fun _ s3 =>
               bindR (eval checks F n body s3) (finishCall checks out)
         | _ => (.stuck 3, s2)
       | .genFn i, .tuple vs =>
         match F[i]? with
         | some ⟨params, _, .gen _⟩ =>
           if params.length ≠ vs.length then (.stuck 3, s2)
-          else (.ok (.gen i ((params.map (·.1)).zip vs) false 0), s2)
+          else (.ok (.gen i ((List.range vs.length).zip vs) false 0), s2)
         | _ => (.stuck 3, s2)
       | _, _ => (.stuck 3, s2)
   | n + 1, .ret e, s =>
@@ -288,12 +377,30 @@ def eval (checks : Bool) (F : Funs) : Nat → Expr → St → Res × St
       | .err e =>
         bindR (selectCatch (catchVal e) typed x final s1) fun blk s2 => eval checks F n blk s2
       | r => (r, s1)
-  | n + 1, .matchE scrut arms, s =>
-    andThen (eval checks F n scrut s) fun v s1 =>
-    bindR (selectArm v arms s1) fun sel s2 =>
-      match sel with
-      | some body => eval checks F n body s2
-      | none => (.ok .null, s2)
+  | n + 1, .matchE scruts arms, s =>
+    andThen (evalArgs checks F n scruts s) fun r s1 =>
+      match r with
+      | .tuple vs => matchArms checks F n vs arms s1
+      | _ => (.stuck 5, s1)
+termination_by structural n _ _ => n
+
+/-- the arms of a `match`, in order: patterns (`armM`, no `checks`), then the `if` guard (a false
+guard passes on to the next *arm*), then the body; no arm: null -/
+def matchArms (checks : Bool) (F : Funs) : Nat → List V → List Arm → St → Res × St
+  | 0, _, _, s => (.stuck 0, s)
+  | _ + 1, _, [], s => (.ok .null, s)
+  | n + 1, vs, .mk alts guard body :: rest, s =>
+    bindR (armM n alts vs s) fun m s1 =>
+      match m with
+      | .yes =>
+        match guard with
+        | none => eval checks F n body s1
+        | some g =>
+          andThen (eval checks F n g s1) fun gv s2 =>
+            if truthy gv then eval checks F n body s2 else matchArms checks F n vs rest s2
+      | .no => matchArms checks F n vs rest s1
+      | .stuck => (.stuck 10, s1)
+termination_by structural n _ _ _ => n
 
 /-- call arguments, left to right; `ok (tuple vs)` -/
 def evalArgs (checks : Bool) (F : Funs) : Nat → List Expr → St → Res × St
@@ -305,6 +412,7 @@ def evalArgs (checks : Bool) (F : Funs) : Nat → List Expr → St → Res × St
       match r with
       | .tuple vs => (.ok (.tuple (v :: vs)), s2)
       | _ => (.stuck 5, s2)
+termination_by structural n _ _ => n
 
 /-- `for` over the elements of a container / range / string / iterator; value = last body value -/
 def forItems (checks : Bool) (F : Funs) : Nat → List Binder → List V → Expr → V → St → Res × St
@@ -314,6 +422,7 @@ def forItems (checks : Bool) (F : Funs) : Nat → List Binder → List V → Exp
     andThen (bindLoop checks bs v s) fun _ s1 =>
     andThen (eval checks F n body s1) fun w s2 =>
       forItems checks F n bs rest body w s2
+termination_by structural n _ _ _ _ _ => n
 
 /-- `for` over a generator: resume it in its own frame, come back, bind, run the body, repeat.
 An error raised inside the generator reaches the consumer unchanged (`run_iterator_next` passes
@@ -328,6 +437,20 @@ def forGen (checks : Bool) (F : Funs) : Nat → List Binder → Nat → List (Va
         andThen (eval checks F n body s2) fun w s3 =>
           forGen checks F n bs i' genv' started' pc' body w s3
       | _ => (.ok last, s1)
+termination_by structural n _ _ _ _ _ _ _ _ => n
+
+/-- `let a, _: T, c = generator`: one resumption per target (also for wildcards); once the generator
+has finished the remaining targets get null -/
+def unpackGen (checks : Bool) (F : Funs) : Nat → List Binder → Nat → List (Var × V) → Bool → Nat → St → Res × St
+  | 0, _, _, _, _, _, s => (.stuck 0, s)
+  | _ + 1, [], _, _, _, _, s => (.ok .null, s)
+  | n + 1, b :: bs, i, genv, started, pc, s =>
+    andThen (restore s (genNext checks F n i started pc { s with env := genv, out := none })) fun r s1 =>
+      match r with
+      | .tuple [v, .gen i' genv' started' pc'] =>
+        andThen (bindOne checks b v s1) fun _ s2 => unpackGen checks F n bs i' genv' started' pc' s2
+      | _ => bindMany checks (b :: bs) [] s1
+termination_by structural n _ _ _ _ _ _ => n
 
 /-- resume generator `i` at statement `pc` (the state is the generator's own frame) until its next
 `yield`: `ok (tuple [value, new generator state])`, or `ok null` when it has finished.
@@ -339,7 +462,7 @@ def genNext (checks : Bool) (F : Funs) : Nat → Nat → Bool → Nat → St →
     | some ⟨params, out, .gen ss⟩ =>
       andThen
         (if started then (.ok .null, s)
-         else bindMany checks (paramBinders params) (s.env.map (·.2)) { s with env := [] })
+         else bindArgs checks (n + 2) params (s.env.map (·.2)) { s with env := [] })
         fun _ s1 =>
           match ss[pc]? with
           | none => (.ok .null, s1)
@@ -354,6 +477,7 @@ def genNext (checks : Bool) (F : Funs) : Nat → Nat → Bool → Nat → St →
               | .ret _ => (.ok .null, s2)
               | r => (r, s2)
     | _ => (.stuck 8, s)
+termination_by structural n _ _ _ _ => n
 
 end
 
